@@ -12,7 +12,8 @@ RULE = ("(a) exhaustive enumeration of batch_tasks over n_tasks x n_batches x st
         "(non-empty, contiguous, ordered, disjoint batches whose union is exactly the requested range / array slice, "
         "each task carrying its own start index, extra args passed through); (d) the partition as the samplers use it: marginal_ln_likelihood / rejection_sample / iterative_rejection_sample on cache-file and file paths with a scripted helper, where the rows handed to the likelihood step and to the linear-parameter step must cover the evaluated / accepted samples exactly once, in order, and the assembled output must follow. Non-trivial: more than one batch "
         "requested and n_tasks not a multiple of n_batches, or n_batches > n_tasks, or start_idx > 0; distinct by "
-        "case fingerprint.")
+        "case fingerprint."
+        " Also: run_worker on one path re-written with other sizes; searches 'samplers' and 'large_library': for marginal_ln_likelihood / rejection_sample / iterative_rejection_sample with a scripted helper the rows handed to the likelihood step and to the linear-parameter step must cover the evaluated / accepted samples exactly once, in order, and as many samples must be evaluated as were requested.")
 SHARDS = {"quick": 2, "thorough": 16}
 
 
